@@ -12,8 +12,8 @@ def run(ctx):
     K.run_harnesses(ctx, 'c19')
     K.report_failures(ctx, 'serdes')
     chk.assumptions += ['EncodedPoint::into_affine / from_affine replaced by oracles that respect only their types (so every decoder verdict is explored); Fq/Fr::mul_assign no-ops, into_repr identity',
-                        'G2 projective and G2Affine serialize share the code shape of the G1 variants (G2Affine deserialize is checked directly)']
-    chk.bounds.update({'stream lengths': 'G1Affine {0,47,48,95,96,97} (+49 thorough), G2Affine {95,193} (+96,191 thorough), Fr {0,31,32,33}, Fq12 {577} (+575,576 thorough); contents symbolic',
+                        'serialize is checked on the generators (any point works: the encoder is an oracle); projective points use the Z = 1 fast path of into_affine']
+    chk.bounds.update({'stream lengths': 'G1Affine {0,47,48,95,96,97} (+49 thorough), G1 {47,95,97} (+96), G2Affine {95,193} (+96,191), G2 {191,193} (+95,97), Fr {0,31,32,33}, Fq12 {577} (+575,576); contents symbolic',
                        'unwind': '100 / 196 / 40 / 60 with unwinding assertions'})
     chk.trusted += ['Kani 0.68 / CBMC 6.11']
 
